@@ -85,3 +85,27 @@ Theorem C01_transfer_state_roundtrip : forall v,
   VhostUserTransferDeviceState_read (VhostUserTransferDeviceState_write v) 0 = v.
 Proof. exact transfer_state_roundtrip. Qed.
 Print Assumptions C01_transfer_state_roundtrip.
+
+(* every operation of the frontend endpoint, for ALL argument values: what the model of frontend.rs (over the regenerated
+   codecs and constants) puts on the socket is byte for byte the specification's encoding - code, version 1 plus the
+   NEED_REPLY bit only, payload size, payload at the specified offsets, the specified descriptors - or nothing; arguments
+   the specification rejects are rejected locally and silently.  [args_wf]: the shape the public Rust API gives the
+   arguments (u32 flag words, four numbers per region, a 16-byte UUID). *)
+From VV Require Import Model.Transport Model.Frontend Spec.FeSpec Proofs.TxSpecProofs.
+Theorem C01_frontend_requests_are_the_specified_encoding : forall name, In name fe_op_names ->
+  forall s a data fds regions q, args_wf name a data regions ->
+  match spec_op (fe_maxq s) (hasf (fe_apf s) VhostUserProtocolFeatures_LOG_SHMFD) name a data fds regions with
+  | Some sp =>
+      match os_body sp with
+      | Some body => f_sent (fe_op s name a data fds regions q) = [] \/ f_sent (fe_op s name a data fds regions q) = [spec_wire s sp body]
+      | None => f_sent (fe_op s name a data fds regions q) = []
+      end
+  | None => True
+  end.
+Proof. exact frontend_transmits_spec. Qed.
+Print Assumptions C01_frontend_requests_are_the_specified_encoding.
+(* ... and the list of operations is every operation the specification describes *)
+Theorem C01_frontend_operations_complete : forall maxq l name a data fds regions,
+  spec_op maxq l name a data fds regions <> None -> existsb (String.eqb name) fe_op_names = true.
+Proof. exact fe_op_names_complete. Qed.
+Print Assumptions C01_frontend_operations_complete.
